@@ -211,6 +211,8 @@ def plan_order(rep: Report, prog: Program) -> None:
     okp = len(loops) == 1 and isinstance(loops[0].iter, ast.Name) and loops[0].iter.id == ip.params()[0] and \
         any(isinstance(c, ast.Call) and isinstance(c.func, ast.Attribute) and c.func.attr == "append" for c in ast.walk(loops[0]))
     rep.check("R10.5", "_inline_paths:order", okp, "_inline_paths does not map the plan in order (append in a forward loop)", ip.where())
+    from .c05 import check_inline_paths
+    check_inline_paths(rep, prog, "R10.5")
 
 
 def offsets_preserved(rep: Report, prog: Program, resolver: Resolver) -> None:
